@@ -139,6 +139,14 @@ func c20Sig(s string) os.Signal {
 		return os.Interrupt
 	case "TERM":
 		return syscall.SIGTERM
+	case "QUIT":
+		return syscall.SIGQUIT
+	case "USR1":
+		return syscall.SIGUSR1
+	case "USR2":
+		return syscall.SIGUSR2
+	case "ALRM":
+		return syscall.SIGALRM
 	}
 	return syscall.SIGHUP
 }
@@ -480,13 +488,26 @@ func TestVerifC20(t *testing.T) {
 			}
 			want = append(want, "link state watcher")
 			srv := NewServer(NewContext(nil, nil, system.TestState{}))
-			var got []string
+			var got, before []string
+			for _, ifi := range cfg.Interfaces {
+				before = append(before, fmt.Sprintf("%s/%v/%v", ifi.Name, ifi.Advertise, ifi.Monitor))
+			}
 			ok := r.Guard(id, "panic", func() {
 				for _, tk := range srv.BuildTasks(cfg, http.NotFoundHandler()) {
 					got = append(got, tk.String())
 				}
 			})
 			if !ok {
+				return
+			}
+			// the configuration handed to BuildTasks is the one the metrics and the
+			// debug API were built from: it must read the same afterwards
+			var after []string
+			for _, ifi := range cfg.Interfaces {
+				after = append(after, fmt.Sprintf("%s/%v/%v", ifi.Name, ifi.Advertise, ifi.Monitor))
+			}
+			if fmt.Sprint(after) != fmt.Sprint(before) {
+				r.Violation(id, "config-altered", fmt.Sprintf("after BuildTasks the configuration's interfaces read %v, before %v", after, before), map[string]any{"modes(0=advertise,1=monitor,2=neither)": modes, "debug": debug})
 				return
 			}
 			if fmt.Sprint(got) != fmt.Sprint(want) {
@@ -536,9 +557,9 @@ func TestVerifC20(t *testing.T) {
 		n = r.Pick(150, 1000)
 	}
 	stims := []string{"signal", "fail", "fail+signal", "signal+fail"}
-	sigs := []string{"INT", "TERM", "HUP"}
+	sigs := []string{"INT", "TERM", "HUP", "INT", "TERM", "HUP", "QUIT", "USR1", "HUP", "USR2", "ALRM", "HUP"} // whatever the daemon is told to listen for: anything but SIGHUP means terminate
 	for i := 0; i < n; i++ {
-		c := &c20Case{ID: fmt.Sprintf("serve/%d", i), Stim: stims[i%4], Sig: sigs[i/4%3],
+		c := &c20Case{ID: fmt.Sprintf("serve/%d", i), Stim: stims[i%4], Sig: sigs[i/4%len(sigs)],
 			ErrKind: []string{"plain", "canceled", "deadline", "closed", "eof"}[i/12%5]}
 		k := 1 + rr.Intn(5)
 		for j := 0; j < k; j++ {
